@@ -1,7 +1,7 @@
 """C07 — every accepted program compiles to SQL the selected dialect parses and binds."""
 import re
 from .. import core, corpus, relcheck
-from ..gen import grel
+from ..gen import grel, gfeat
 from ..mon import sqlscope
 
 FEATURES = [
@@ -129,7 +129,7 @@ def _shard(seed, shard, n_rel, corpus_srcs):
            "prepared_sqlite": 0, "engine_unsupported": 0, "panics": 0, "per_dialect": {}, "nontrivial": set(), "sql_features": {}}
     db = grel.gen_db(rng, "normal")
     w.db_open("d", grel.db_stmts(db))
-    work = [("corpus", s, None) for s in corpus_srcs] + [("featdb", s, None) for s in FEATURES_DB[shard::core.NCPU]]
+    work = [("corpus", s, None) for s in corpus_srcs] + [("featdb", s, None) for s in (FEATURES_DB + [p for _, p in gfeat.programs() if len(p) < 3000])[shard::core.NCPU]]
     for i in range(n_rel):
         prof = ["core", "project", "window", "sort"][i % 4]
         try:
